@@ -96,11 +96,11 @@ Proof.
   - intros H E. apply f2u_ub in E. lia.
 Qed.
 
-(** KickMap::updateSM's conversion [jd = qp_int] is the one Model/Kick.v calls [sm_defined] *)
+(** KickMap::updateSM's conversion [jd = qp_int] is the one Model/Kick.v calls [sm_defined_pinned] *)
 Lemma sm_defined_f2u n o :
-  sm_defined n o = true <-> f2u 32 (rnd32 (Qcz (n / 2) + o)%Qc) <> UB.
+  sm_defined_pinned n o = true <-> f2u 32 (rnd32 (Qcz (n / 2) + o)%Qc) <> UB.
 Proof.
-  unfold sm_defined, poffs_split. cbn [sp_int]. split.
+  unfold sm_defined_pinned, poffs_split. cbn [sp_int]. split.
   - intros H E. apply f2u_ub in E. lia.
   - intros H. destruct (f2u 32 _) eqn:E; [|congruence]. apply f2u_val in E. lia.
 Qed.
@@ -198,7 +198,7 @@ Qed.
 Lemma sm_entry_index_range n it o j1 : 0 < n -> 0 <= fst (sm_entry n it o j1) < n.
 Proof.
   intros Hn. unfold sm_entry.
-  destruct (sp_int (poffs_split n o) <? n); [|cbn [fst]; Z.to_euclidean_division_equations; lia].
+  destruct ((0 <=? sp_int (poffs_split n o)) && (sp_int (poffs_split n o) <? n))%bool; [|cbn [fst]; Z.to_euclidean_division_equations; lia].
   match goal with |- context [wrap32 ?z <? n] => pose proof (wrap32_range z) as W; destruct (wrap32 z <? n) eqn:E end.
   - cbn [fst]. lia.
   - cbn [fst]. Z.to_euclidean_division_equations; lia.
@@ -214,13 +214,13 @@ Qed.
 Lemma kick_table_pinned_in_bounds n it o j1 i w :
   0 < n -> sm_entry_c n it o j1 = Some (i, w) -> 0 <= i < n.
 Proof.
-  intros Hn H. unfold sm_entry_c in H. destruct (sm_defined n o); [|discriminate].
+  intros Hn H. unfold sm_entry_c in H. destruct (sm_defined_pinned n o); [|discriminate].
   injection H as H. pose proof (sm_entry_index_range n it o j1 Hn) as R. rewrite H in R. exact R.
 Qed.
 
 (** the conversion is only made inside the range test, where it is defined *)
-Lemma sm_in_range_defined n o : 0 < n <= 2 ^ 32 -> sm_in_range n o = true -> sm_defined n o = true.
-Proof. unfold sm_in_range, sm_defined. intros Hn H. lia. Qed.
+Lemma sm_in_range_defined n o : 0 < n <= 2 ^ 32 -> sm_in_range n o = true -> sm_defined_pinned n o = true.
+Proof. unfold sm_in_range, sm_defined_pinned. intros Hn H. lia. Qed.
 
 (** inside the range the fixed code is the model of Model/Kick.v *)
 Lemma sm_entry_g_eq n it o j1 : sm_in_range n o = true -> sm_entry_g n it o j1 = sm_entry n it o j1.
